@@ -91,6 +91,7 @@ const (
 //
 // The behavior of the decoder can be customized by setting fields in the DecodeOptions struct before calling this method.
 func (cfg DecodeOptions) Decode(na datamodel.NodeAssembler, r io.Reader) error {
+	r = progressReader{r}
 	// Probe for a builtin fast path.  Shortcut to that if possible.
 	// Note: when an assembler implements this interface, it receives only the
 	// reader and none of the fields set on cfg. Implementations are responsible
@@ -123,6 +124,26 @@ func (cfg DecodeOptions) Decode(na datamodel.NodeAssembler, r io.Reader) error {
 	default:
 		return err
 	}
+}
+
+// progressReader hides reads that return no bytes and no error. An io.Reader may
+// do that ("nothing happened"), but the refmt decoder underneath takes such a read
+// for a byte of value zero. Like bufio, give up after many empty reads in a row.
+type progressReader struct {
+	r io.Reader
+}
+
+func (p progressReader) Read(b []byte) (int, error) {
+	if len(b) == 0 {
+		return p.r.Read(b)
+	}
+	for i := 0; i < 100; i++ {
+		n, err := p.r.Read(b)
+		if n > 0 || err != nil {
+			return n, err
+		}
+	}
+	return 0, io.ErrNoProgress
 }
 
 // Future work: we would like to remove the Unmarshal function,
